@@ -529,7 +529,7 @@ impl Runner {
             return out;
         }
         let what = a.to_json().to_string();
-        let what = if what.len() > 160 { format!("{}..", &what[..160]) } else { what };
+        let what = if what.len() > 160 { format!("{}..", what.chars().take(160).collect::<String>()) } else { what };
         match a {
             Action::Tx { ops, commit } => {
                 let before = if or.no_trace && !*commit { Some(self.file_bytes()) } else { None };
